@@ -282,7 +282,7 @@ func TestC17(t *testing.T) {
 
 		sort.Slice(starts, func(a, b int) bool { return starts[a] < starts[b] })
 
-		term := fmt.Sprintf("C17Slow %s %s %s", Z(int64(skip)), Z(int64(skip)/8), ZList(starts))
+		term := fmt.Sprintf("C17Slow %s %s %s", Z(int64(skip)), Z(int64(skip)*45/100), ZList(starts))
 		cf.Add(term, "slow-callbacks", map[string]any{"kind": "slow", "skip_ns": int64(skip), "callback_starts_ns": starts,
 			"calls_at": "0, 1.25, 2.8, 3.1, 3.8 x SkipInterval; first callback sleeps 2.5 x SkipInterval"}, len(starts) >= 2)
 	}
